@@ -8,6 +8,8 @@ From Coq Require Import ZifyBool ZifyNat ZifyN Permutation.
 Local Open Scope N_scope.
 
 (* ---------------------------------------------------------------- Part A *)
+(* [P S st]: a property of the sort state indexed by the list S of blocks that SortCollision has
+   inserted into the visited set and not yet numbered (the collision routines on the call stack). *)
 Section Preserve.
   Variable P : sstate -> Prop.
   Definition preserves (a : s_act) : Prop := forall st st', a st = Ok st' -> P st -> P st'.
@@ -32,43 +34,90 @@ Section Preserve.
 
   Lemma pres_pure f : (forall st, P st -> P (f st)) -> preserves (pure_upd f).
   Proof. intros H st st' E. inversion E. auto. Qed.
+End Preserve.
 
+Section PreserveRun.
+  Variable P : list N -> sstate -> Prop.
   Variable ob : bool.
   Variable rso : list N.
-  Hypothesis Hassign : forall i, preserves (assign i).
-  Hypothesis Hrebuild : forall i st, P st -> P (rebuild_at ob rso i st).
+  Hypothesis Hassign : forall S i, preserves (P S) (assign i).
+  Hypothesis Hmark : forall S i st, P S st -> visited st i = false -> P (i :: S) (s_mark i st).
+  Hypothesis Hindex : forall S i st st', P (i :: S) st -> s_set_index i st = Ok st' -> P S st'.
+  Hypothesis Hrebuild : forall S i st, P S st -> P S (rebuild_at ob rso i st).
+
+  Lemma pres_bracket {A} S i pre (rdf : sstate -> A) before after :
+    (forall S', preserves (P S') pre) -> (forall S' l, preserves (P S') (before l)) ->
+    (forall l, preserves (P S) (after l)) ->
+    preserves (P S) (s_bracket i pre rdf before after).
+  Proof.
+    intros Hpre Hbef Haft st st' H HP. unfold s_bracket in H. destruct (visited st i) eqn:V.
+    - revert H HP. apply pres_seq; [apply Hpre|]. apply pres_rd. intros l. apply pres_seq; [apply Hbef|apply Haft].
+    - pose proof (Hmark S i st HP V) as HM. revert H HM. generalize (s_mark i st). intros s0 H HM.
+      unfold seq2 at 1 in H. destruct (pre s0) as [s1| |] eqn:E1; cbn [bind] in H; try discriminate.
+      pose proof (Hpre (i :: S) _ _ E1 HM) as H1.
+      unfold s_rd, seq2 in H.
+      destruct (before (rdf s1) s1) as [s2| |] eqn:E2; cbn [bind] in H; try discriminate.
+      pose proof (Hbef (i :: S) _ _ _ E2 H1) as H2.
+      destruct (s_set_index i s2) as [s3| |] eqn:E3; cbn [bind] in H; try discriminate.
+      pose proof (Hindex S i _ _ H2 E3) as H3.
+      exact (Haft _ _ _ H H3).
+  Qed.
 
   Ltac pres IH :=
     repeat match goal with
-      | |- preserves (sort_run _ _ _ _) => apply IH
-      | |- preserves s_skip => apply pres_skip
-      | |- preserves (assign _) => apply Hassign
-      | |- preserves (seq2 _ _) => apply pres_seq
-      | |- preserves (s_foreach _ _) => apply pres_foreach; intros
-      | |- preserves (s_rd _ _) => apply pres_rd; intros
-      | |- preserves (pure_upd _) => apply pres_pure; apply Hrebuild
-      | |- preserves (match ?x with _ => _ end) => destruct x
+      | |- preserves _ (sort_run _ _ _ _) => apply IH
+      | |- preserves _ s_skip => apply pres_skip
+      | |- preserves _ (assign _) => apply Hassign
+      | |- preserves _ (seq2 _ _) => apply pres_seq
+      | |- preserves _ (s_foreach _ _) => apply pres_foreach; intros
+      | |- preserves _ (s_rd _ _) => apply pres_rd; intros
+      | |- preserves _ (pure_upd _) => apply pres_pure; apply Hrebuild
+      | |- preserves _ (s_bracket _ _ _ _ _) => apply pres_bracket; intros
+      | |- preserves _ (match ?x with _ => _ end) => destruct x
       end.
 
-  Theorem run_preserves : forall fuel c, preserves (sort_run ob rso fuel c).
+  Theorem run_preserves : forall fuel S c, preserves (P S) (sort_run ob rso fuel c).
   Proof.
-    induction fuel as [|f IH]; intros c; [intros st st' H; discriminate|].
+    induction fuel as [|f IH]; intros S c; [intros st st' H; discriminate|].
     destruct c; cbn [sort_run]; pres IH.
   Qed.
 
-  Lemma leftover_preserves n : preserves (leftover n).
+  Lemma leftover_preserves S n : preserves (P S) (leftover n).
   Proof. unfold leftover. apply pres_foreach. intros. apply Hassign. Qed.
-End Preserve.
+End PreserveRun.
+
+(* properties that do not depend on the pending list *)
+Section PreserveUnary.
+  Variable Q : sstate -> Prop.
+  Variable ob : bool.
+  Variable rso : list N.
+  Hypothesis Hassign : forall i, preserves Q (assign i).
+  Hypothesis Hmark : forall i st, Q st -> Q (s_mark i st).
+  Hypothesis Hindex : forall i, preserves Q (s_set_index i).
+  Hypothesis Hrebuild : forall i st, Q st -> Q (rebuild_at ob rso i st).
+
+  Lemma leftover_preserves_unary n : preserves Q (leftover n).
+  Proof. unfold leftover. apply pres_foreach. intros. apply Hassign. Qed.
+
+  Theorem run_preserves_unary fuel c : preserves Q (sort_run ob rso fuel c).
+  Proof.
+    refine (run_preserves (fun _ => Q) ob rso _ _ _ _ fuel [] c).
+    - intros _ i. apply Hassign.
+    - intros _ i st H _. apply Hmark. exact H.
+    - intros _ i st st' H E. eapply Hindex; eauto.
+    - intros _ i st. apply Hrebuild.
+  Qed.
+End PreserveUnary.
 
 (* ---------------------------------------------------------------- Part B *)
-(* [base] is the value the counter started with (0 in PrettySortBlocks). The visited list is in
-   reverse order of visit; the k-th visited block carries base + k. *)
-Record SInv (n base : N) (st : sstate) : Prop := mkSInv {
+(* [base] is the value the counter started with. [asg] (ghost) lists the numbered blocks in the order
+   of numbering: the k-th carries base + k; the visited set is asg plus the pending blocks S. *)
+Record SInv (n base : N) (S : list N) (st : sstate) : Prop := mkSInv {
   si_len : vlen (st_nidx st) = n;
-  si_nodup : NoDup (st_vis st);
-  si_range : Forall (fun i => i < n) (st_vis st);
-  si_next : st_next st = base + vlen (st_vis st);
-  si_vals : forall k i, nth_error (rev (st_vis st)) k = Some i -> vget (st_nidx st) i = Some (base + N.of_nat k)
+  si_asg : exists asg,
+    NoDup (S ++ asg) /\ (forall x, In x (st_vis st) <-> In x (S ++ asg)) /\
+    Forall (fun i => i < n) asg /\ st_next st = base + vlen asg /\
+    (forall k i, nth_error asg k = Some i -> vget (st_nidx st) i = Some (base + N.of_nat k))
 }.
 
 Lemma visited_in st i : visited st i = true <-> In i (st_vis st).
@@ -107,37 +156,80 @@ Proof.
   apply NoDup_incl_length in H; [|exact Hnd]. rewrite map_length, seq_length in H. unfold vlen. lia.
 Qed.
 
-Theorem assign_inv n base i st st' :
-  base + n < 4294967296 -> SInv n base st -> assign i st = Ok st' -> SInv n base st'.
+Lemma NoDup_app_r {A} (l l' : list A) : NoDup (l ++ l') -> NoDup l'.
+Proof. induction l as [|a l IH]; cbn; [auto|]. intros H. inversion H; auto. Qed.
+
+(* numbering one more block: the common step of the fused assignment and of SortCollision's
+   deferred one *)
+Lemma number_step n base S asg i st v :
+  base + n < 4294967296 ->
+  vlen (st_nidx st) = n -> NoDup (S ++ asg ++ [i]) -> Forall (fun j => j < n) asg ->
+  st_next st = base + vlen asg ->
+  (forall k j, nth_error asg k = Some j -> vget (st_nidx st) j = Some (base + N.of_nat k)) ->
+  vset (st_nidx st) i (st_next st) = Some v ->
+  vlen v = n /\ Forall (fun j => j < n) (asg ++ [i]) /\
+  wrapN 32 (st_next st + 1) = base + vlen (asg ++ [i]) /\
+  (forall k j, nth_error (asg ++ [i]) k = Some j -> vget v j = Some (base + N.of_nat k)).
 Proof.
-  intros Hsmall [Hlen Hnd Hrange Hnext Hvals] H.
-  destruct (assign_cases _ _ _ H) as [(_ & ->)|(Hnot & v & Hv & ->)]; [constructor; assumption|].
+  intros Hsmall Hlen Hnd Hrange Hnext Hvals Hv.
   pose proof (vset_some_lt _ _ _ _ Hv) as Hi. rewrite Hlen in Hi.
-  assert (Hcard : vlen (i :: st_vis st) <= n).
-  { apply NoDup_lt_length; [constructor; assumption|constructor; assumption]. }
-  rewrite vlen_cons in Hcard.
-  constructor; cbn [st_nidx st_vis st_next st_gr].
-  - unfold vlen in *. rewrite (vset_len _ _ _ _ Hv). exact Hlen.
-  - constructor; assumption.
-  - constructor; assumption.
-  - rewrite vlen_cons, Hnext. rewrite wrap32_small; lia.
-  - intros k j Hk. cbn [rev] in Hk. rewrite (vget_vset _ _ _ _ _ Hv).
-    assert (Hl : length (rev (st_vis st)) = length (st_vis st)) by apply rev_length.
-    destruct (Nat.lt_ge_cases k (length (st_vis st))) as [Hlt|Hge].
-    + rewrite nth_error_app1 in Hk by lia.
-      destruct (N.eqb_spec j i) as [->|_].
-      * exfalso. apply Hnot. apply in_rev. eapply nth_error_In; eauto.
-      * apply Hvals; exact Hk.
-    + rewrite nth_error_app2 in Hk by lia. rewrite Hl in Hk.
-      destruct (k - length (st_vis st))%nat as [|m] eqn:Em; cbn in Hk; [|destruct m; discriminate].
-      inversion Hk; subst j. rewrite N.eqb_refl. f_equal. rewrite Hnext. unfold vlen. lia.
+  assert (Hnd2 : NoDup (asg ++ [i])) by (apply NoDup_app_r in Hnd; exact Hnd).
+  assert (Hr2 : Forall (fun j => j < n) (asg ++ [i])).
+  { apply Forall_app. split; [exact Hrange|constructor; [exact Hi|constructor]]. }
+  assert (Hcard : vlen (asg ++ [i]) <= n) by (apply NoDup_lt_length; assumption).
+  assert (Hni : ~ In i asg).
+  { intros Hc. apply NoDup_remove_2 in Hnd2. rewrite app_nil_r in Hnd2. contradiction. }
+  rewrite vlen_app in *. change (vlen [i]) with 1 in *.
+  split; [unfold vlen in *; rewrite (vset_len _ _ _ _ Hv); exact Hlen|].
+  split; [exact Hr2|]. split; [rewrite Hnext, wrap32_small; lia|].
+  intros k j Hk. rewrite (vget_vset _ _ _ _ _ Hv).
+  destruct (Nat.lt_ge_cases k (length asg)) as [Hlt|Hge].
+  - rewrite nth_error_app1 in Hk by lia.
+    destruct (N.eqb_spec j i) as [->|_]; [exfalso; apply Hni; eapply nth_error_In; eauto|].
+    apply Hvals; exact Hk.
+  - rewrite nth_error_app2 in Hk by lia.
+    destruct (k - length asg)%nat as [|m] eqn:Em; cbn in Hk; [|destruct m; discriminate].
+    inversion Hk; subst j. rewrite N.eqb_refl. f_equal. rewrite Hnext. unfold vlen. lia.
 Qed.
 
-(* an in-range assignment never faults *)
-Lemma assign_ok n base i st : SInv n base st -> i < n -> exists st', assign i st = Ok st'.
+Theorem assign_inv n base S i st st' :
+  base + n < 4294967296 -> SInv n base S st -> assign i st = Ok st' -> SInv n base S st'.
 Proof.
-  intros [Hlen _ _ _ _] Hi. unfold assign. destruct (visited st i); [eauto|].
-  destruct (vset_ok (st_nidx st) i (st_next st)) as (v & ->); [lia|]. eauto.
+  intros Hsmall [Hlen (asg & Hnd & Hvis & Hrange & Hnext & Hvals)] H.
+  destruct (assign_cases _ _ _ H) as [(_ & ->)|(Hnot & v & Hv & ->)]; [constructor; [assumption|exists asg; auto]|].
+  assert (Hnd' : NoDup (S ++ asg ++ [i])).
+  { rewrite app_assoc. apply NoDup_snoc; [exact Hnd|]. intros Hc. apply Hnot, Hvis. exact Hc. }
+  destruct (number_step n base S asg i st v Hsmall Hlen Hnd' Hrange Hnext Hvals Hv) as (H1 & H2 & H3 & H4).
+  constructor; cbn [st_nidx st_vis st_next st_gr]; [exact H1|]. exists (asg ++ [i]).
+  split; [exact Hnd'|]. split; [|auto].
+  intros x. cbn [In]. rewrite Hvis, !in_app_iff. cbn [In]. tauto.
+Qed.
+
+(* SortCollision's entry: the parent joins the visited set and the pending list *)
+Theorem mark_inv n base S i st :
+  SInv n base S st -> visited st i = false -> SInv n base (i :: S) (s_mark i st).
+Proof.
+  intros [Hlen (asg & Hnd & Hvis & Hrange & Hnext & Hvals)] V. apply visited_false in V.
+  constructor; cbn [s_mark st_nidx st_vis st_next]; [exact Hlen|]. exists asg.
+  split; [cbn [app]; constructor; [intros Hc; apply V, Hvis; exact Hc|exact Hnd]|].
+  split; [|auto]. intros x. cbn [In app]. rewrite Hvis. tauto.
+Qed.
+
+(* ... and its deferred numbering: the parent leaves the pending list *)
+Theorem set_index_inv n base S i st st' :
+  base + n < 4294967296 -> SInv n base (i :: S) st -> s_set_index i st = Ok st' -> SInv n base S st'.
+Proof.
+  intros Hsmall [Hlen (asg & Hnd & Hvis & Hrange & Hnext & Hvals)] H.
+  unfold s_set_index in H. destruct (vset (st_nidx st) i (st_next st)) as [v|] eqn:Hv; [|discriminate].
+  inversion H; subst st'. clear H.
+  assert (Hnd' : NoDup (S ++ asg ++ [i])).
+  { rewrite app_assoc. apply NoDup_snoc.
+    - cbn [app] in Hnd. inversion Hnd; assumption.
+    - cbn [app] in Hnd. inversion Hnd; assumption. }
+  destruct (number_step n base S asg i st v Hsmall Hlen Hnd' Hrange Hnext Hvals Hv) as (H1 & H2 & H3 & H4).
+  constructor; cbn [st_nidx st_vis st_next st_gr]; [exact H1|]. exists (asg ++ [i]).
+  split; [exact Hnd'|]. split; [|auto].
+  intros x. rewrite Hvis. cbn [In app]. rewrite !in_app_iff. cbn [In]. tauto.
 Qed.
 
 Lemma assign_vis_mono i st st' : assign i st = Ok st' -> incl (st_vis st) (st_vis st') /\ In i (st_vis st').
@@ -148,41 +240,35 @@ Proof.
 Qed.
 
 Lemma foreach_assign n base : base + n < 4294967296 -> forall l st st',
-  s_foreach l assign st = Ok st' -> SInv n base st ->
-  SInv n base st' /\ incl (st_vis st) (st_vis st') /\ (forall i, In i l -> In i (st_vis st')).
+  s_foreach l assign st = Ok st' -> SInv n base [] st ->
+  SInv n base [] st' /\ incl (st_vis st) (st_vis st') /\ (forall i, In i l -> In i (st_vis st')).
 Proof.
   intros Hsmall. induction l as [|x l IH]; intros st st' H HI.
   - inversion H; subst. split; [exact HI|]. split; [apply incl_refl|intros i []].
   - cbn [s_foreach] in H. unfold seq2 in H. destruct (assign x st) as [s1| |] eqn:E; cbn in H; try discriminate.
-    destruct (IH _ _ H (assign_inv _ _ _ _ _ Hsmall HI E)) as (HI' & Hinc & Hall).
+    destruct (IH _ _ H (assign_inv _ _ _ _ _ _ Hsmall HI E)) as (HI' & Hinc & Hall).
     destruct (assign_vis_mono _ _ _ E) as (Hinc1 & Hx).
     split; [exact HI'|]. split; [eapply incl_tran; eauto|].
     intros i [<-|Hi]; [apply Hinc, Hx|apply Hall, Hi].
 Qed.
 
-(* the state when every index below n has been visited: newIndices = base + (position in visit order) *)
+(* the state when every index below n has been visited and nothing is pending *)
 Definition complete (n : N) (st : sstate) : Prop := forall i, i < n -> In i (st_vis st).
 
-Lemma complete_card n base st : SInv n base st -> complete n st -> vlen (st_vis st) = n.
+Theorem complete_perm n st : SInv n 0 [] st -> complete n st -> is_perm (st_nidx st) n.
 Proof.
-  intros [_ Hnd Hrange _ _] Hc.
-  pose proof (NoDup_lt_length _ _ Hnd Hrange) as Hle.
-  assert (H : incl (map N.of_nat (seq 0 (N.to_nat n))) (st_vis st)).
-  { intros x Hx. apply in_map_iff in Hx. destruct Hx as (k & <- & Hk). apply in_seq in Hk. apply Hc. lia. }
-  apply NoDup_incl_length in H.
-  - rewrite map_length, seq_length in H. unfold vlen in *. lia.
-  - apply FinFun.Injective_map_NoDup; [intros a b E; lia|apply seq_NoDup].
-Qed.
-
-Theorem complete_perm n st : SInv n 0 st -> complete n st -> is_perm (st_nidx st) n.
-Proof.
-  intros HI Hc. pose proof (complete_card _ _ _ HI Hc) as Hcard.
-  destruct HI as [Hlen Hnd Hrange Hnext Hvals].
-  set (L := rev (st_vis st)).
-  assert (HLlen : length L = N.to_nat n) by (unfold L; rewrite rev_length; unfold vlen in Hcard; lia).
-  assert (Hpos : forall i, i < n -> exists k, nth_error L k = Some i /\ (k < N.to_nat n)%nat).
-  { intros i Hi. specialize (Hc i Hi). apply in_rev in Hc. fold L in Hc. apply In_nth_error in Hc.
-    destruct Hc as (k & Hk). exists k. split; [exact Hk|]. rewrite <- HLlen. apply nth_error_Some. congruence. }
+  intros [Hlen (asg & Hnd & Hvis & Hrange & Hnext & Hvals)] Hc. cbn [app] in *.
+  assert (Hcard : vlen asg = n).
+  { pose proof (NoDup_lt_length _ _ Hnd Hrange) as Hle.
+    assert (H : incl (map N.of_nat (seq 0 (N.to_nat n))) asg).
+    { intros x Hx. apply in_map_iff in Hx. destruct Hx as (k & <- & Hk). apply in_seq in Hk. apply Hvis, Hc. lia. }
+    apply NoDup_incl_length in H.
+    - rewrite map_length, seq_length in H. unfold vlen in *. lia.
+    - apply FinFun.Injective_map_NoDup; [intros a b E; lia|apply seq_NoDup]. }
+  assert (Hpos : forall i, i < n -> exists k, nth_error asg k = Some i /\ (k < N.to_nat n)%nat).
+  { intros i Hi. specialize (Hc i Hi). apply Hvis in Hc. apply In_nth_error in Hc.
+    destruct Hc as (k & Hk). exists k. split; [exact Hk|].
+    assert (k < length asg)%nat by (apply nth_error_Some; congruence). unfold vlen in Hcard. lia. }
   split; [|split; [|exact Hlen]].
   - apply NoDup_nth_error. intros a b Ha E.
     assert (Hb : (b < length (st_nidx st))%nat).
@@ -202,42 +288,26 @@ Proof.
     assert (v = 0 + N.of_nat ka) by congruence. lia.
 Qed.
 
-(* a counter that did not start at 0 numbers the blocks base .. base+n-1: the largest is out of range *)
-Theorem complete_shifted n base st : SInv n base st -> complete n st -> 0 < n ->
-  exists i, i < n /\ vget (st_nidx st) i = Some (base + n - 1).
-Proof.
-  intros HI Hc Hn. pose proof (complete_card _ _ _ HI Hc) as Hcard.
-  destruct HI as [Hlen Hnd Hrange Hnext Hvals].
-  assert (Hl : length (rev (st_vis st)) = N.to_nat n) by (rewrite rev_length; unfold vlen in Hcard; lia).
-  destruct (nth_error (rev (st_vis st)) (N.to_nat n - 1)) as [i|] eqn:E.
-  - exists i. split.
-    + rewrite Forall_forall in Hrange. apply Hrange. apply in_rev. eapply nth_error_In; eauto.
-    + rewrite (Hvals _ _ E). f_equal. lia.
-  - apply nth_error_None in E. lia.
-Qed.
-
-Lemma init_inv g base : SInv (vlen g) base (init_state g base).
+Lemma init_inv g base : SInv (vlen g) base [] (init_state g base).
 Proof.
   constructor; cbn.
   - unfold vlen. rewrite map_length, seq_length. reflexivity.
-  - constructor.
-  - constructor.
-  - lia.
-  - intros k i H. destruct k; discriminate.
+  - exists []. cbn. split; [constructor|]. split; [tauto|]. split; [constructor|]. split; [lia|].
+    intros k i H. destruct k; discriminate.
 Qed.
 
 Lemma leftover_complete n base st st' : base + n < 4294967296 ->
-  leftover (N.to_nat n) st = Ok st' -> SInv n base st -> SInv n base st' /\ complete n st'.
+  leftover (N.to_nat n) st = Ok st' -> SInv n base [] st -> SInv n base [] st' /\ complete n st'.
 Proof.
   intros Hs H HI. unfold leftover in H.
   destruct (foreach_assign n base Hs _ _ _ H HI) as (HI' & _ & Hall).
   split; [exact HI'|]. intros i Hi. apply Hall. apply in_map_iff. exists (N.to_nat i). split; [lia|]. apply in_seq. lia.
 Qed.
 
-(* ---- the same compositional reasoning, usable outside the section ---- *)
-Ltac pres HA HR :=
+(* ---- the same compositional reasoning, usable outside the sections ---- *)
+Ltac pres HA HM HX HR :=
   repeat match goal with
-  | |- preserves _ (sort_run _ _ _ _) => apply run_preserves; [exact HA|exact HR]
+  | |- preserves _ (sort_run _ _ _ _) => apply run_preserves; [exact HA|exact HM|exact HX|exact HR]
   | |- preserves _ s_skip => apply pres_skip
   | |- preserves _ (assign _) => apply HA
   | |- preserves _ (seq2 _ _) => apply pres_seq
@@ -255,18 +325,27 @@ Proof.
   destruct (vset (st_gr st) i _); auto.
 Qed.
 
-Lemma rebuild_at_sinv ob rso n base i st : SInv n base st -> SInv n base (rebuild_at ob rso i st).
+Lemma rebuild_at_sinv ob rso n base S i st : SInv n base S st -> SInv n base S (rebuild_at ob rso i st).
 Proof.
-  intros [H1 H2 H3 H4 H5]. destruct (rebuild_at_fields ob rso i st) as (E1 & E2 & E3).
+  intros [H1 H2]. destruct (rebuild_at_fields ob rso i st) as (E1 & E2 & E3).
   constructor; rewrite ?E1, ?E2, ?E3; assumption.
 Qed.
 
-(* sort_perm for any traversal: whatever calls are made (any graph, any fuel, any root shape order),
-   a state satisfying the numbering invariant still satisfies it afterwards *)
-Theorem run_sinv ob rso n base fuel c st st' :
-  base + n < 4294967296 -> sort_run ob rso fuel c st = Ok st' -> SInv n base st -> SInv n base st'.
+(* sort_perm for any traversal: whatever calls are made (any graph, any fuel, any root shape order,
+   any pending list), a state satisfying the numbering invariant still satisfies it afterwards *)
+Theorem run_sinv ob rso n base S fuel c st st' :
+  base + n < 4294967296 -> sort_run ob rso fuel c st = Ok st' -> SInv n base S st -> SInv n base S st'.
 Proof.
   intros Hs. apply (run_preserves (SInv n base) ob rso).
-  - intros i s s' H HI. eapply assign_inv; eauto.
-  - intros i s. apply rebuild_at_sinv.
+  - intros S0 i s s' H HI. eapply assign_inv; eauto.
+  - intros S0 i s. apply mark_inv.
+  - intros S0 i s s' HI H. eapply set_index_inv; eauto.
+  - intros S0 i s. apply rebuild_at_sinv.
 Qed.
+
+(* the two halves of SortCollision's assignment leave the block vector alone *)
+Lemma mark_gr i st : st_gr (s_mark i st) = st_gr st.
+Proof. reflexivity. Qed.
+
+Lemma set_index_gr i st st' : s_set_index i st = Ok st' -> st_gr st' = st_gr st.
+Proof. unfold s_set_index. destruct (vset _ _ _); [|discriminate]. intros H. inversion H. reflexivity. Qed.
